@@ -146,6 +146,7 @@ fn main() {
             env::init_region((threads + 2) * env::MAX_ARENAS * (slab_bytes + env::SLAB_ALIGN));
             journal::install(a.get("dump").map(|s| s.as_str()));
             journal::spawn_watchdog(a.get("stall-s").map(|s| s.parse().unwrap()).unwrap_or(20));
+            util::env_selftest(slab_bytes);
             let thorough = a.get("tier").map(|s| s == "thorough").unwrap_or(false);
             let profile = profile_of(a.get("profile").map(|s| s.as_str()).unwrap_or("core"));
             let depth: usize = a.get("depth").map(|s| s.parse().unwrap()).unwrap_or(3);
